@@ -323,6 +323,14 @@ def run_hist(c):
                 continue
             if cls == "fmri" and (not same_ty or o["q"] != q):
                 note(f"history {' ; '.join(hist)}: adding contrasts of different type or dimension did not raise")
+            if fail is None and o["q"] == q:
+                before = copy.deepcopy(state(new, cls))
+                other.effect = other.effect + 0          # the operand owns its arrays
+                np.asarray(other.effect)[...] += 1.0
+                np.asarray(other.variance)[...] *= 2.0
+                after = state(new, cls)
+                if not (np.array_equal(before[4], after[4]) and np.array_equal(before[5], after[5])):
+                    note(f"history {' ; '.join(hist)}: editing the right operand's arrays in place afterwards changes the sum")
             t, dof, tiny, dm, e, var = state(new, cls)
             _, dof0, _, _, e0, var0 = state(obj, cls)
             if o["q"] == q and not (np.array_equal(e, e0 + oe) and np.array_equal(var, var0 + ov) and dof == dof0 + o["dof"]):
@@ -344,12 +352,26 @@ def run_hist(c):
             if side == "d":
                 hist.append(f"c.__div__({k})")
                 new = obj.__div__(k)
+                for v in range(nv):
+                    toks[v].append(f"div {fr(k)} {fr(1.0 / k)}")
                 k = 1.0 / k
             else:
                 hist.append(f"{k} * c" if side == "l" else f"c * {k}")
                 new = (k * obj) if side == "l" else (obj * k)
-            for v in range(nv):
-                toks[v].append(f"mul {fr(k)}")
+                for v in range(nv):
+                    toks[v].append(f"mul {fr(k)}")
+            # the result is a value: later edits of the operand's arrays do not reach it
+            if fail is None and cls == "fmri" and new is not obj:
+                before = copy.deepcopy(state(new, cls))
+                keep_e, keep_v = np.array(obj.effect, copy=True), np.array(obj.variance, copy=True)
+                try:
+                    obj.effect += 1.0; obj.variance *= 2.0
+                    after = state(new, cls)
+                    if not (np.array_equal(before[4], after[4]) and np.array_equal(before[5], after[5])):
+                        note(f"history {' ; '.join(hist)}: editing the operand's effect / variance arrays in place afterwards "
+                             f"changes the scaled contrast")
+                finally:
+                    obj.effect[...] = keep_e; obj.variance[...] = keep_v
             if k > 0 and fail is None:
                 msg = scale_clause(cls, obj, new, k, f"history {' ; '.join(hist)}")
                 if msg:
@@ -511,7 +533,7 @@ def run_labsfit(c):
             tags.append("save-load")
         finally:
             shutil.rmtree(d, ignore_errors=True)
-    if fail is None and c.get("grid") and c["model"] == "spherical":
+    if fail is None and c.get("grid") and c["model"] == "spherical" and ty in ("t", "F", "tmin"):
         # the same voxels presented on a grid (two voxel axes, the time axis where `axis` says): every voxel keeps
         # its own estimate, variance and statistic - the layout of the voxels is not part of the model
         a_, b_ = c["grid"]
@@ -526,7 +548,7 @@ def run_labsfit(c):
             vg = vg.reshape(vf.shape[:-1] + (-1,)) if vf.ndim >= 1 else vg
             if not np.allclose(eg, ef, rtol=1e-10, atol=1e-12 * (1 + np.abs(ef).max())):
                 fail = f"labs glm on a {a_}x{b_} voxel grid (axis={axis}): contrast effect differs from the flat layout"
-            elif vg.shape != vf.shape or not np.allclose(vg, vf, rtol=1e-9, atol=1e-300):
+            elif vg.shape != vf.shape or not np.allclose(vg, vf, rtol=1e-9, atol=1e-9 * float(np.abs(vf).max()) + 1e-300):
                 fail = (f"labs glm on a {a_}x{b_} voxel grid (axis={axis}, type={ty}, {q} rows): contrast variance "
                         f"{vg.tolist()} differs from the flat layout {vf.tolist()}")
             tags.append(f"grid={'x'.join(map(str, c['grid']))}")
